@@ -7,6 +7,21 @@ ROOT = os.path.dirname(os.path.dirname(os.path.abspath(__file__)))
 
 # id -> (level category, technique, level text, level note, design section)
 CHECKS = {
+ "C04": ("exploration",
+         "history checker with ground truth + independent crypto verification of emitted signatures (and the reverse direction)",
+         "All operation histories (sign with three keys of different type, dump+load, change of a signed field, re-sign) of length<=3/4 are executed on real Metablock/Envelope objects; after every operation each key must verify iff it signed the current content; every emitted signature is checked with crypto/rsa|ecdsa|ed25519 over reference bytes (reference canonical JSON, reference DSSE PAE) and signatures produced that way must be accepted by the library; every payload leaf, signature character, key id and verifying key is mutated.",
+         "Trusted: Go standard-library crypto; reference canonical JSON and PAE (harness/ref).",
+         "C04"),
+ "C12": ("exploration",
+         "round-trip monitor + labelled-corruption sweep + reference validator",
+         "Files written by Dump are loaded back through both loaders and compared (payload, signatures, wrapper, signature validity); every labelled structural corruption of the JSON (the classes listed in the property) must be refused by both loaders; ValidateMetablock is compared with a reference validator on conforming bases and single-rule variants.",
+         "Trusted: the corruption labels (harness/props/c12.go structLevel/freeForm) and the reference validator written from the statement's list of format rules.",
+         "C12"),
+ "C19": ("exploration",
+         "ground truth by construction (harness-written encodings of fresh keys) + independent key-id computation + sign/verify cross-checks",
+         "Fresh keys of every supported kind are written by the harness in every PEM form and loaded through all four loaders with decorations; type, scheme, public half, identifier (recomputed independently), halves, cross-form identity, sign/verify behaviour (also against crypto/*), explicit schemes, object re-use and the SPIFFE conversion are checked; non-keys must be refused.",
+         "Trusted: crypto/x509 marshalling used by the harness to write the encodings; reference canonical JSON.",
+         "C19"),
  "C01": ("exploration",
          "ground truth by construction + marker files + hook-event trace automaton",
          "Real InTotoVerify / InTotoVerifyWithDirectory are executed on signed layouts (both wrappers) for every (signer subset, verifier subset) pair of a 4-key pool, every single-point alteration of the dumped signed content, of the signature list and of the supplied key set; the generator knows which key signed which content version, so 'authentic' is known, and a non-authentic layout must be rejected with no inspection marker and no link loading before the signature phase. Held = no such acceptance/marker/ordering on the cases listed in the evidence.",
